@@ -423,11 +423,20 @@ def replay(ov, prop, item, extra, timeout=900, native=True):
                 continue
             m = re.search(r"test result: \w+\. (\d+) passed; (\d+) failed", out)
             hit = needle in out and re.search(r"panicked at", out) is not None
+            other = None
+            if not hit and lab.startswith("VP[") and re.search(r"panicked at", out):
+                # natively `vp!` is an assert, so the test stops at the FIRST failing obligation, which may be an
+                # earlier one than the obligation this counterexample was generated for: the concrete input still
+                # violates the property on the real code
+                mo = re.search(r"(VP\[%s\]: [^\n]*)" % re.escape(item["property"]), out)
+                if mo:
+                    hit, other = True, mo.group(1)
             if not m:
                 err = re.findall(r"^error[^\n]*", out, re.M)
                 notes.append(f"{'release' if profile else 'dev'}: no result ({'; '.join(err[:2])})")
             else:
-                notes.append(f"{'release' if profile else 'dev'}: {m.group(0)}; obligation {'reproduced' if hit else 'not reproduced'}")
+                notes.append(f"{'release' if profile else 'dev'}: {m.group(0)}; obligation {'reproduced' if hit else 'not reproduced'}"
+                             + (f" (the native run stops at an earlier obligation of the same property: {other[:120]})" if other else ""))
             if hit:
                 reproduced = True
     finally:
